@@ -244,7 +244,7 @@ class Models:
                 return outs
         if g[0] == "fnitem":
             fid = g[3] or g[1]
-            if getattr(self.w, "inline_all", False) and F is not None and fid in F.fns and fid != self.w.fn.id and not F.fns[fid].is_closure:
+            if getattr(self.w, "inline_all", False) and F is not None and fid in F.fns and fid != self.w.fn.id and not F.fns[fid].is_closure and fid not in getattr(F, "noinline", ()):
                 qs = F.inline_paths(fid, self.w.depth, canon=True, inline_all=True)
                 if qs is not None:
                     mapping = {("param", i + 1): x for i, x in enumerate(args)}
@@ -323,7 +323,7 @@ class Models:
             F._from_index = idx
         if not want[0] or not want[1] or want[0][:1].isupper() or want[1][:1].isupper():
             return None          # a bare type parameter on either side: no particular impl
-        c = idx.get(want) or []
+        c = [x for x in (idx.get(want) or []) if x not in getattr(F, "noinline", ())]
         return c[0] if len(c) == 1 else None
 
     def model(self, path, full, a, ce, site, known):
@@ -331,13 +331,13 @@ class Models:
         c = self.ctor(path, a)
         if c is not None:
             return [Out([], [], c)]
-        is_opt = "option::Option" in path
-        is_res = "result::Result" in path
+        is_opt = path.startswith("std::option::Option::<") or path.startswith("core::option::Option::<")
+        is_res = path.startswith("std::result::Result::<") or path.startswith("core::result::Result::<")
         if is_opt:
             return self.option(n, a, site, known)
         if is_res:
             return self.result(n, a, site, known)
-        if path_ends(path, "Try::branch") and len(a) == 1:
+        if path in ("std::ops::Try::branch", "core::ops::Try::branch", "core::ops::try_trait::Try::branch") and len(a) == 1:
             f = full or ""
             if f.startswith("<std::result::Result<"):
                 outs = []
@@ -356,7 +356,7 @@ class Models:
                         outs.append(Out(c, [], agg(CF + "::Break", NONE), k))
                 return outs
             return None
-        if path_ends(path, "FromResidual::from_residual") and len(a) == 1:
+        if path in ("std::ops::FromResidual::from_residual", "core::ops::FromResidual::from_residual", "core::ops::try_trait::FromResidual::from_residual") and len(a) == 1:
             r = a[0]
             if r[0] == "agg" and r[1] == "adt" and r[2] == RES + "::Err":
                 e = r[3][0]
@@ -372,9 +372,10 @@ class Models:
             if r[0] == "agg" and r[1] == "adt" and r[2] == OPT + "::None":
                 return [Out([], [], NONE)]
             return None
-        if (path_ends(path, "Into::into") or path_ends(path, "From::from")) and len(a) == 1 and identity_conversion(full or ""):
+        std_conv = path in ("std::convert::Into::into", "std::convert::From::from", "core::convert::Into::into", "core::convert::From::from")
+        if std_conv and len(a) == 1 and identity_conversion(full or ""):
             return [Out([], [], a[0])]
-        if (path_ends(path, "Into::into") or path_ends(path, "From::from")) and len(a) == 1 and getattr(self.w, "inline_all", False):
+        if std_conv and len(a) == 1 and getattr(self.w, "inline_all", False):
             fid = self.from_impl(full)
             if fid is not None and fid != self.w.fn.id:
                 return self.apply(("fnitem", fid, fid, fid), (a[0],), site, known) if self._inlinable(fid) else None
